@@ -212,6 +212,11 @@ def P.resolveSub (p : P) : SubSpec → P × SubRes
     | (p', some s) => (p', .ok r.2 s)
     | (p', none) => (p', .panic)
 
+/-- return addresses are looked up one byte earlier (`saturating_sub(1)`, profile.rs:1174, 1185) -/
+def AKind.adjust : AKind → Nat → Nat
+  | .ra, a => a - 1
+  | _, a => a
+
 inductive AddrRes
   | unknown (a : Nat)
   | inLib (rel lib : Nat)
@@ -222,19 +227,12 @@ inductive AddrRes
 (process.rs:80-97; kernel libs are not modelled). Only `libs` changes. -/
 def resolveAddr (libs : GlobalLibs) (maps : List Mapping) : AddrSpec → GlobalLibs × AddrRes
   | .abs k a =>
-    let a' := match k with
-      | .ra => a - 1   -- `saturating_sub(1)`
-      | _ => a
-    match mappingConvert maps a' with
+    match mappingConvert maps (k.adjust a) with
     | none => (libs, .panic)
-    | some none => (libs, .unknown a')
-    | some (some (rel, lib)) => let r := libs.indexForUsed lib; (r.1, .inLib rel r.2)
+    | some none => (libs, .unknown (k.adjust a))
+    | some (some (rel, lib)) => ((libs.indexForUsed lib).1, .inLib rel (libs.indexForUsed lib).2)
   | .rel k lib a =>
-    if lib < libs.all.length then
-      let r := libs.indexForUsed lib
-      match k with
-      | .ra => (r.1, .inLib (a - 1) r.2)
-      | _ => (r.1, .inLib a r.2)
+    if lib < libs.all.length then ((libs.indexForUsed lib).1, .inLib (k.adjust a) (libs.indexForUsed lib).2)
     else (libs, .invalid)
 
 /-- the global string behind a `StringHandle` -/
@@ -305,6 +303,27 @@ def P.frameAddr (p : P) (t : Nat) (a : AddrSpec) (c s flags : Nat) : P × Out :=
           let r := th.strings.forGlobal g str
           p2.internFrame t th r.1 ⟨r.2, some ⟨lib, none, rel, 0⟩, c, s, none, none, none, flags⟩
 
+/-- `(variant, name)` of `handle_for_frame_with_address_and_symbol_internal` (profile.rs:753-774):
+`name'` is the converted explicit name if the caller gave one; otherwise the hex string of an unknown
+address or the name of the native symbol. `none` = `names[native_symbol_index]` out of range. -/
+def P.symVariant (p : P) (th : Thread) (st : ThreadStrings) (res : AddrRes) (name' : Option Nat)
+    (nsymIdx depth : Nat) : Option (P × ThreadStrings × Option NativeData × Nat) :=
+  match res with
+  | .unknown addr =>
+    match name' with
+    | some n => some (p, st, none, n)
+    | none =>
+      let r := st.forGlobal (p.hexString addr).2.1 (p.hexString addr).2.2
+      some ((p.hexString addr).1, r.1, none, r.2)
+  | .inLib rel lib =>
+    match name' with
+    | some n => some (p, st, some ⟨lib, some nsymIdx, rel, depth⟩, n)
+    | none =>
+      match th.nsyms.names[nsymIdx]? with
+      | some n => some (p, st, some ⟨lib, some nsymIdx, rel, depth⟩, n)
+      | none => none
+  | _ => none
+
 /-- `handle_for_frame_with_address_and_symbol_internal` (profile.rs:727-792) -/
 def P.frameSym (p : P) (t : Nat) (a : AddrSpec) (name : Option Nat) (nsym : TH)
     (file line col : Option Nat) (depth c s flags : Nat) : P × Out :=
@@ -319,29 +338,10 @@ def P.frameSym (p : P) (t : Nat) (a : AddrSpec) (name : Option Nat) (nsym : TH)
       | (_, .invalid) => (p, .invalid)
       | (_, .panic) => (p, .panic)
       | (libs, res) =>
-        let p1 := { p with libs := libs }
-        match convertOpt p1 th.strings name with
+        match convertOpt { p with libs := libs } th.strings name with
         | none => (p, .invalid)
         | some (st1, name') =>
-          -- (variant, name) per profile.rs:753-774
-          let step2 : Option (P × ThreadStrings × Option NativeData × Nat) :=
-            match res with
-            | .unknown addr =>
-              match name' with
-              | some n => some (p1, st1, none, n)
-              | none =>
-                let (p2, g, str) := p1.hexString addr
-                let r := st1.forGlobal g str
-                some (p2, r.1, none, r.2)
-            | .inLib rel lib =>
-              match name' with
-              | some n => some (p1, st1, some ⟨lib, some nsym.2, rel, depth⟩, n)
-              | none =>
-                match th.nsyms.names[nsym.2]? with
-                | some n => some (p1, st1, some ⟨lib, some nsym.2, rel, depth⟩, n)
-                | none => none
-            | _ => none
-          match step2 with
+          match P.symVariant { p with libs := libs } th st1 res name' nsym.2 depth with
           | none => (p, .invalid)
           | some (p2, st2, variant, n) =>
             match convertOpt p2 st2 file with
